@@ -2,6 +2,7 @@ SPECIFICATION Spec
 CONSTANTS
   KD = 8
   ResetFastOnClear = TRUE
+  FastPathAutoClean = TRUE
   TruncateChunkOnClear = FALSE
   ChunkSizes = {1, 2, 3}
   Keys = {1, 2}
@@ -9,6 +10,8 @@ CONSTANTS
   MaxCycles = 3
   ACs = {TRUE, FALSE}
   Concs = {TRUE, FALSE}
+  ACLs = {FALSE}
+  CleanUps = FALSE
   AltKeys = FALSE
   CanonPull = FALSE
 VIEW View
